@@ -459,7 +459,11 @@ func sectionCIndex(rng *vh.Rng) {
 			}
 			defer func() { cancel(); inj.Shutdown() }()
 			o := &outs[trial]
-			add := func(l, im, w string) { o.lines = append(o.lines, l); o.impls = append(o.impls, im); o.what = append(o.what, w) }
+			add := func(l, im, w string) {
+				o.lines = append(o.lines, l)
+				o.impls = append(o.impls, im)
+				o.what = append(o.what, w)
+			}
 			add("ci.reset", "ok", "reset")
 			src := "s"
 			cid := 1
@@ -657,11 +661,18 @@ func sectionRace(rng *vh.Rng) {
 					}
 					// readable before the query starts = confirmed in the journal's chunks now (one sequential writer: the first conf events)
 					conf := 0
+					lastChunkStart := 0 // first event of the chunk that is the journal's last one when the query starts
+					var chunkStarts []int
 					if jrnl != nil {
 						cks, _ := jrnl.Chunks().Chunks(ctx)
 						for _, c := range cks {
+							lastChunkStart = conf
+							chunkStarts = append(chunkStarts, conf)
 							conf += int(c.Count())
 						}
+					}
+					if n := len(chunkStarts); n >= 3 {
+						lastChunkStart = chunkStarts[n-3] // the newest three chunks: one Write call can open two chunks
 					}
 					mu.Lock()
 					if conf > len(allTs) {
@@ -709,13 +720,19 @@ func sectionRace(rng *vh.Rng) {
 					missing := 0
 					want := 0
 					onlyRecent := true
+					onlyLastChunk := true
+					var missed []int
 					for s, t := range snapshot {
 						if inB(t, lo, hi) {
 							want++
 							if !have[s] {
 								missing++
+								missed = append(missed, s)
 								if s < recent {
 									onlyRecent = false
+								}
+								if s < lastChunkStart {
+									onlyLastChunk = false
 								}
 							}
 						}
@@ -731,8 +748,39 @@ func sectionRace(rng *vh.Rng) {
 						finding := ""
 						if onlyRecent {
 							finding = "F46" // every hidden event belongs to the last two Write calls: readable, hull/index update pending
+						} else if onlyLastChunk {
+							// F48: the newest chunk's index entry was forgotten by a syncChunks working on an older chunk list; later
+							// notifications re-created it from their own batches only. Some schedule of the model (forget the chunk at a
+							// batch boundary) yields exactly this outcome iff, in each of the newest chunks, the hidden events are a PREFIX of
+							// the chunk's in-range events: nothing that is delivered from a chunk precedes a hidden event of the same chunk
+							prefix, seenDelivered := true, false
+							nextChunk := 0
+							for s := lastChunkStart; s < len(snapshot); s++ {
+								for nextChunk < len(chunkStarts) && chunkStarts[nextChunk] <= s {
+									if chunkStarts[nextChunk] == s {
+										seenDelivered = false // a new chunk starts: the prefix rule holds chunk by chunk
+									}
+									nextChunk++
+								}
+								if !inB(snapshot[s], lo, hi) {
+									continue
+								}
+								if have[s] {
+									seenDelivered = true
+								} else if seenDelivered {
+									prefix = false
+								}
+							}
+							if prefix {
+								finding = "F48"
+							}
+							in["hidden_is_prefix_of_last_chunk"] = prefix
 						}
-						res.SpecFail(vh.SpecFailure{Section: "race", Kind: "hidden-event", Input: in, Impl: short(runsOf(got)), Spec: fmt.Sprintf("%d events confirmed before the query are in range", want), Finding: finding, ImplEqModel: onlyRecent,
+						in["only_last_chunk"], in["last_chunk_start"], in["recent_start"] = onlyLastChunk, lastChunkStart, recent
+						if len(missed) > 0 {
+							in["missed"] = fmt.Sprint(missed[0], "…", missed[len(missed)-1])
+						}
+						res.SpecFail(vh.SpecFailure{Section: "race", Kind: "hidden-event", Input: in, Impl: short(runsOf(got)), Spec: fmt.Sprintf("%d events confirmed before the query are in range", want), Finding: finding, ImplEqModel: finding != "",
 							What: fmt.Sprintf("RANGE [%s:%s] next to a writer and forced rebuilds hides %d of %d events that were readable before the query started (monotone data)", optS(lo), optS(hi), missing, want)})
 					}
 				}
